@@ -35,7 +35,7 @@ def cases(ctx):
             for lead in ("T", "R"):
                 yield "script", {"scripts": [lead * k + o], "procs": 1, "seed": ctx.subseed("o", k, o, lead)}
     rr = ctx.rng("multi")
-    for i in range(ctx.pick(500, 40000)):
+    for i in range(ctx.pick(500, 120000)):
         nd = rr.randint(2, 8)
         scripts = []
         for _ in range(nd):
